@@ -2,6 +2,8 @@
 def run_all():
     from harness.props import c17, c01
     out = {"pickle": c17.translate(), "propensity": c01.translate()}
+    from harness.props import c09
+    out["rules"] = c09.translate()
     from harness.props import c16, c18
     out["priors"] = c16.translate(); out["stencils"] = c18.translate()
     try:
